@@ -198,7 +198,9 @@ fn parse_list(tokens: TokenStream) -> Result<Value, ParseError> {
     let mut parser = Parser::new(tokens.into_iter().collect());
     while let Some(token) = parser.peek() {
         if let TokenTree::Punct(punct) = token {
-            if punct.as_char() == '.' {
+            // A dot that is joined to following punctuation starts a symbol
+            // such as `...`; only a dot on its own introduces the tail.
+            if punct.as_char() == '.' && punct.spacing() == Spacing::Alone {
                 if tail.is_some() {
                     return Err(ParseError::UnexpectedChar('.'));
                 }
